@@ -83,7 +83,7 @@ type Obs struct {
 	ParseErr  string            `json:"parse_err,omitempty"`
 	Panics    []int             `json:"panics,omitempty"`
 	Ran       []int             `json:"ran,omitempty"`
-	PrePats   []string          `json:"pre_patterns,omitempty"`
+	Pre       []PreAns          `json:"asked_before_next,omitempty"`
 	Status    int               `json:"status"`
 	Reached   int               `json:"reached"` // handler id, -1 none
 	Vars      map[string]string `json:"vars,omitempty"`
@@ -96,6 +96,12 @@ type Obs struct {
 	Path      string            `json:"url_path"`
 	RawPath   string            `json:"url_rawpath"`
 	nInstalled int
+}
+
+// PreAns is what a middleware was told when it asked before calling next.
+type PreAns struct {
+	Pattern string            `json:"pattern"`
+	Vars    map[string]string `json:"vars"`
 }
 
 type xmlErr struct {
@@ -166,7 +172,11 @@ func run(c *Case) *Obs {
 					return http.HandlerFunc(func(w http.ResponseWriter, r *http.Request) {
 						o.Ran = append(o.Ran, id)
 						if p, ok := pos[id]; ok && p < len(c.Pre) && c.Pre[p] {
-							o.PrePats = append(o.PrePats, m.ResolvePattern(r))
+							pa := PreAns{Pattern: m.ResolvePattern(r), Vars: map[string]string{}}
+							for k, v := range m.Vars(r) {
+								pa.Vars[k] = v
+							}
+							o.Pre = append(o.Pre, pa)
 						}
 						next.ServeHTTP(w, r)
 						o.PostPat = m.ResolvePattern(r) // the outermost middleware writes last
@@ -303,15 +313,6 @@ func fullyPercentValid(v string) bool { // contains '%', and PathUnescape accept
 	return err == nil
 }
 
-func anyPre(c *Case, o *Obs) bool {
-	for i, p := range c.Pre {
-		if p && i < o.nInstalled {
-			return true
-		}
-	}
-	return false
-}
-
 func wildNames(p []Seg) []string {
 	var ns []string
 	for _, s := range p {
@@ -359,7 +360,6 @@ func oracle(c *Case, o *Obs, res *vh.Result) {
 		}
 		return
 	}
-	pre := anyPre(c, o)
 	segs := routedSegs(o)
 	var matching []int // live Handle ops (same method) whose pattern matches
 	anyMethod := false
@@ -395,9 +395,6 @@ func oracle(c *Case, o *Obs, res *vh.Result) {
 			want := patString(c.Ops[ri].Pat)
 			if o.HPat != want || (o.nInstalled > 0 && o.PostPat != want) {
 				sig := "pattern-misreported"
-				if pre {
-					sig = "resolve-before-routing"
-				}
 				fail(sig, fmt.Sprintf("pattern registered %q; ResolvePattern gave %q in the handler, %q in the middleware after next", want, o.HPat, o.PostPat))
 			}
 			// every wildcard of the reached pattern has a value, nothing else
@@ -410,9 +407,6 @@ func oracle(c *Case, o *Obs, res *vh.Result) {
 			}
 			if !okKeys {
 				sig := "vars-keys"
-				if pre {
-					sig = "resolve-before-routing"
-				}
 				fail(sig, fmt.Sprintf("Vars has keys %v, the pattern's wildcards are %v", vh.SortedKeys(o.Vars), names))
 			}
 		}
@@ -435,6 +429,31 @@ func oracle(c *Case, o *Obs, res *vh.Result) {
 			}
 		}
 	}
+	// a middleware that asked before next was told what the handler (and a middleware after
+	// next) is told: the registered pattern and the same variables; nothing when no handler runs
+	for _, pa := range o.Pre {
+		wantPat, wantVars := "", map[string]string{}
+		if o.Reached >= 0 {
+			if ri := opOfHandler(o.Reached); ri >= 0 {
+				wantPat = patString(c.Ops[ri].Pat)
+			}
+			wantVars = o.Vars
+		}
+		same := pa.Pattern == wantPat && len(pa.Vars) == len(wantVars)
+		for k, v := range wantVars {
+			if pv, ok := pa.Vars[k]; !ok || pv != v {
+				same = false
+			}
+		}
+		if !same {
+			sig := "resolve-before-routing"
+			if o.Path == "" && o.RawPath == "" {
+				sig = "resolve-before-routing-empty-path"
+			}
+			fail(sig, fmt.Sprintf("a middleware asking before next got pattern %q and Vars %v; the handler that ran is registered as %q and got Vars %v", pa.Pattern, pa.Vars, wantPat, wantVars))
+			break
+		}
+	}
 	// the property's construction: values out == values in
 	if c.Chosen >= 0 && o.Reached == c.Ops[c.Chosen].H && opOfHandler(o.Reached) == c.Chosen {
 		names := wildNames(c.Ops[c.Chosen].Pat)
@@ -446,10 +465,8 @@ func oracle(c *Case, o *Obs, res *vh.Result) {
 				continue
 			}
 			sig := "value-changed"
-			if u, err := url.PathUnescape(v); o.RawPath == "" && fullyPercentValid(v) && err == nil && got == u && !pre {
+			if u, err := url.PathUnescape(v); o.RawPath == "" && fullyPercentValid(v) && err == nil && got == u {
 				sig = "double-unescape"
-			} else if pre {
-				sig = "resolve-before-routing"
 			}
 			fail(sig, fmt.Sprintf("wildcard %s: client value %q, Vars returned %q (URL.Path %q, RawPath %q)", n, v, got, o.Path, o.RawPath))
 			break
@@ -557,6 +574,15 @@ func handlerOfPattern(c *Case, method, pat string) int {
 	return -1
 }
 
+func coqKV(m map[string]string) string {
+	ks := vh.SortedKeys(m)
+	kv := make([]string, len(ks))
+	for i, k := range ks {
+		kv[i] = "(" + coqB(k) + "," + coqB(m[k]) + ")"
+	}
+	return "[" + strings.Join(kv, ";") + "]"
+}
+
 func coqCase(idx int, c *Case, o *Obs) string {
 	ops := make([]string, len(c.Ops))
 	for i, op := range c.Ops {
@@ -570,24 +596,12 @@ func coqCase(idx int, c *Case, o *Obs) string {
 	if mt, _, err := mime.ParseMediaType(c.Accept); err == nil {
 		parsed = "(Some " + mtClass(mt) + ")"
 	}
-	// the oracle for chi's choice on the decoded path: read off the pattern goa reported
-	dec := -1
-	if len(o.PrePats) > 0 && o.PrePats[0] != "" {
-		dec = handlerOfPattern(c, c.Method, o.PrePats[0])
-	} else if o.Reached < 0 && o.PostPat != "" {
-		dec = handlerOfPattern(c, c.Method, o.PostPat)
-	}
 	obs := "None"
 	if o.ParseErr == "" {
 		var out string
 		switch {
 		case o.Reached >= 0:
-			ks := vh.SortedKeys(o.Vars)
-			kv := make([]string, len(ks))
-			for i, k := range ks {
-				kv[i] = "(" + coqB(k) + "," + coqB(o.Vars[k]) + ")"
-			}
-			out = fmt.Sprintf("(OHandled %d [%s] %s)", o.Reached, strings.Join(kv, ";"), coqB(o.HPat))
+			out = fmt.Sprintf("(OHandled %d %s %s)", o.Reached, coqKV(o.Vars), coqB(o.HPat))
 		case o.Status == 404:
 			body := "None"
 			if b := o.BodyOK; b != nil {
@@ -600,14 +614,14 @@ func coqCase(idx int, c *Case, o *Obs) string {
 		default:
 			out = "OOther"
 		}
-		pre := make([]string, len(o.PrePats))
-		for i, p := range o.PrePats {
-			pre[i] = coqB(p)
+		pre := make([]string, len(o.Pre))
+		for i, pa := range o.Pre {
+			pre[i] = "(" + coqB(pa.Pattern) + "," + coqKV(pa.Vars) + ")"
 		}
 		obs = fmt.Sprintf("(Some (mkobs %s %s [%s] %s %s))", vh.CoqNatList(o.Panics), vh.CoqNatList(o.Ran), strings.Join(pre, ";"), out, coqB(o.PostPat))
 	}
-	return fmt.Sprintf("(%d%%N, mkcase [%s] %s %s %s %s %s %s %s %s)", idx, strings.Join(ops, ";"), c.Method, coqB(c.wire()), coqBools(c.Pre),
-		mtClass(c.Accept), parsed, coqOptNat(o.Reached), coqOptNat(dec), obs)
+	return fmt.Sprintf("(%d%%N, mkcase [%s] %s %s %s %s %s %s %s)", idx, strings.Join(ops, ";"), c.Method, coqB(c.wire()), coqBools(c.Pre),
+		mtClass(c.Accept), parsed, coqOptNat(o.Reached), obs)
 }
 
 // ---------------------------------------------------------------- generators
@@ -1049,11 +1063,15 @@ func main() {
 			mk("built", []Op{{Method: "GET", Pat: files, H: 0}}, 0, []string{v}, "", nil)
 		}
 		// ResolvePattern from a middleware before next
-		mk("witness-resolve-before-routing", []Op{{Use: true, MW: 0}, {Method: "GET", Pat: uid, H: 0}}, 1, []string{"1"}, "", []bool{true})
-		mk("witness-resolve-before-routing", []Op{{Use: true, MW: 0}, {Method: "GET", Pat: files, H: 0}}, 1, []string{"a/b"}, "", []bool{true})
-		mk("witness-resolve-before-routing", []Op{{Use: true, MW: 0}, {Method: "GET", Pat: uid, H: 0},
+		mk("built", []Op{{Use: true, MW: 0}, {Method: "GET", Pat: uid, H: 0}}, 1, []string{"1"}, "", []bool{true})
+		mk("built", []Op{{Use: true, MW: 0}, {Method: "GET", Pat: files, H: 0}}, 1, []string{"a/b"}, "", []bool{true})
+		mk("built", []Op{{Use: true, MW: 0}, {Method: "GET", Pat: uid, H: 0},
 			{Method: "GET", Pat: get(Seg{"lit", "u"}, Seg{"var", "a"}, Seg{"var", "b"}), H: 1}}, 1, []string{"a/b"}, "", []bool{true})
 		mk("built", []Op{{Use: true, MW: 0}, {Use: true, MW: 1}, {Method: "GET", Pat: uid, H: 0}}, 2, []string{"1"}, "", []bool{false, false})
+		// what is left of it: a URL with an empty path is routed as "/" but matched as "" before routing
+		for _, p := range [][]Seg{get(Seg{"lit", ""}), get(Seg{"catch", "p"})} {
+			cases = append(cases, &Case{Stream: "witness-resolve-empty-path", Ops: []Op{{Use: true, MW: 0}, {Method: "GET", Pat: p, H: 0}}, Method: "GET", Wire: "", Chosen: -1, Pre: []bool{true}})
+		}
 		// Use after Handle
 		mk("witness-use-after-handle", []Op{{Method: "GET", Pat: uid, H: 0}, {Use: true, MW: 0}}, 0, []string{"1"}, "", nil)
 		mk("witness-use-after-handle", []Op{{Use: true, MW: 0}, {Method: "GET", Pat: uid, H: 0}, {Use: true, MW: 1}}, 1, []string{"1"}, "", nil)
@@ -1116,7 +1134,7 @@ func main() {
 			}
 			for _, w := range reqs {
 				for _, me := range []string{"GET", "POST"} {
-					cases = append(cases, &Case{Stream: "exhaustive", Ops: ops, Method: me, Wire: hex.EncodeToString([]byte(w)), Chosen: -1, Pre: []bool{false}})
+					cases = append(cases, &Case{Stream: "exhaustive", Ops: ops, Method: me, Wire: hex.EncodeToString([]byte(w)), Chosen: -1, Pre: []bool{w != ""}})
 				}
 			}
 		}
@@ -1127,7 +1145,7 @@ func main() {
 			for k := 0; k < 3 && i < nBuilt; k++ {
 				c := builtCase(rng, ops, true, nil)
 				c.Stream = "built"
-				c.Pre = make([]bool, 3)
+				c.Pre = []bool{rng.Chance(1, 3), rng.Chance(1, 3), rng.Chance(1, 3)}
 				cases = append(cases, c)
 				i++
 			}
@@ -1136,7 +1154,12 @@ func main() {
 			ops := genOps(rng, rng.Intn(3))
 			for k := 0; k < 3 && i < nHostile; k++ {
 				me := vh.Pick(rng, []string{"GET", "GET", "POST", vh.Pick(rng, methods)})
-				cases = append(cases, &Case{Stream: "hostile", Ops: ops, Method: me, Wire: hex.EncodeToString([]byte(hostileWire(rng, ops))), Chosen: -1, Accept: vh.Pick(rng, mainAccepts)})
+				hw := hostileWire(rng, ops)
+				pre := []bool{rng.Chance(1, 3), rng.Chance(1, 3)}
+				if hw == "" { // the empty URL path is the recorded finding resolve-before-routing-empty-path
+					pre = nil
+				}
+				cases = append(cases, &Case{Stream: "hostile", Ops: ops, Method: me, Wire: hex.EncodeToString([]byte(hw)), Chosen: -1, Accept: vh.Pick(rng, mainAccepts), Pre: pre})
 				i++
 			}
 		}
@@ -1146,20 +1169,11 @@ func main() {
 				c.Stream = "witness-double-unescape"
 				cases = append(cases, c)
 			}
-			// single-method pattern sets for the pre-routing ResolvePattern (see notes: mna carry-over)
-			ops := genOps(rng, 1+rng.Intn(2))
-			for k := range ops {
-				if !ops[k].Use {
-					ops[k].Method = "GET"
-				}
+			if i < 8 { // the empty URL path with an early ResolvePattern, random pattern sets containing "/" or "/{*p}"
+				ops := genOps(rng, 1)
+				ops = append(ops, Op{Method: "GET", Pat: vh.Pick(rng, [][]Seg{{{"lit", ""}}, {{"catch", "rest"}}}), H: 9})
+				cases = append(cases, &Case{Stream: "witness-resolve-empty-path", Ops: ops, Method: "GET", Wire: "", Chosen: -1, Pre: []bool{true}})
 			}
-			c := builtCase(rng, ops, true, nil)
-			c.Stream = "witness-resolve-before-routing"
-			c.Pre = []bool{rng.Bool(), true}
-			if ops[1].Use == false {
-				c.Pre = []bool{true}
-			}
-			cases = append(cases, c)
 			c2 := &Case{Stream: "witness-notfound-text", Ops: genOps(rng, 1), Method: "GET", Wire: hex.EncodeToString([]byte("/nowhere/zz/zz/zz/zz/zz/zz")), Chosen: -1, Accept: vh.Pick(rng, textAccepts)}
 			cases = append(cases, c2)
 		}
@@ -1210,7 +1224,7 @@ func main() {
 	sort.Strings(keys)
 	res.Rule = "codec: strings of 0-8 pieces from an alphabet biased to % / + space ? # ; , valid and invalid %XX, multi-byte and invalid UTF-8, any byte (url.PathEscape/QueryEscape/PathUnescape/QueryUnescape, url.Parse Path/RawPath/EscapedPath); " +
 		"routing: 0-3 middlewares then 1-6 patterns (literals, {name}, trailing {*name}, renamed and extended copies, several methods) on goahttp.NewMuxer(); 'built' = one registered pattern instantiated with url.PathEscape(values) drawn inside the hypothesis of vars_roundtrip_partial; " +
-		"'hostile' = disturbed and random request paths, unregistered methods, Accept variants; 'exhaustive' = every set of <= 2 (quick) / <= 3 (thorough) routes out of 6 patterns x 2 methods x 13 paths x 2 methods; witness streams for the recorded findings; " +
+		"'hostile' = disturbed and random request paths, unregistered methods, Accept variants; 'exhaustive' = every set of <= 2 (quick) / <= 3 (thorough) routes out of 6 patterns x 2 methods x 13 paths x 2 methods; middlewares ask ResolvePattern/Vars before next in a third of the cases; witness streams for the recorded findings; " +
 		"non-trivial = has wildcard values or is a hostile/exhaustive request; distinct = distinct (registration sequence, method, path, Accept, pre flags) plus distinct codec strings"
 	if err := os.WriteFile(filepath.Join(*out, "cases_codec.txt"), []byte(codec.String()), 0o644); err != nil {
 		panic(err)
